@@ -19,7 +19,7 @@ RULE = ('seeded histories (3-40 ops) over 1-3 root RDMs objects sharing a condit
 ASSUMPTIONS = ['twin semantics as tabulated in DESIGN.md Appendix B; identity-encoded values make every cell attributable',
                'from_partials keeps only the chosen pattern descriptor by documentation: loss of the other pattern descriptors '
                'there is not judged']
-BUDGET = {'quick': {'runs': 2500, 'cap_s': 30, 'wall_s': 100, 'chunk': 40},
+BUDGET = {'quick': {'runs': 8000, 'cap_s': 30, 'wall_s': 100, 'chunk': 40},
           'thorough': {'runs': 150000, 'cap_s': 60, 'wall_s': 1500, 'chunk': 250}}
 
 WEIGHTS = [('getitem_int', 2), ('getitem_list', 2), ('iterate', 1), ('subset', 3), ('subsample', 3), ('subset_pattern', 4),
